@@ -1,19 +1,82 @@
-"""Replay of a recorded violation.
+"""Replay of a recorded violation, and the witness search that precedes it.
 
-Verus gives no counterexample, so for Verus obligations the replay re-generates the obligations named in the replay file
-from /repo's current working tree and re-runs the verifier on them; for Kani obligations the stored concrete-playback test
-(the verifier's counterexample) was already executed against the real function when the violation was reported, and the
-replay re-runs the harness. No separate small-scope search against the public API is built (see DESIGN.md section 8)."""
+Verus gives no counterexample. For Verus obligations the replay re-generates the obligations named in the replay file from /repo's current
+working tree and re-runs the verifier on them; for Kani obligations the stored concrete-playback test (the verifier's counterexample) was
+already executed against the real function when the violation was reported, and the replay re-runs the harness.
+
+For C20 (panic / hang) a failed obligation is followed by a small-scope WITNESS SEARCH against the real code: the public entry points of the
+module the obligation lives in are called on every small graph (replays/search/verif_search.rs, a test built in a scratch copy of /repo with
+overflow checks on, each call under catch_unwind and a watchdog). A witness is stored in the replay file and replayed by `--replay`; without
+one the VIOLATION line ends with no-failing-input-found. The search never decides a verdict and never runs on a tree whose obligations hold."""
 import json
 import os
 import re
+import shutil
 import subprocess
 import sys
 
 ROOT = os.path.dirname(os.path.dirname(os.path.abspath(__file__)))
+REPO = os.environ.get('VERIF_REPO', '/repo')
+
+# module of the failed obligation -> entry-point group of the search harness (first match wins)
+GROUPS = [
+    ('src/algorithms/cluster/square.rs', 'square'),
+    ('src/algorithms/cluster/', 'cluster'),
+    ('src/algorithms/centrality/eigenvector.rs', 'eigenvector'),
+    ('src/algorithms/centrality/betweenness.rs', 'betweenness'),
+    ('src/algorithms/centrality/closeness.rs', 'closeness'),
+    ('src/algorithms/centrality/degree.rs', 'graph'),
+    ('src/algorithms/shortest_path/', 'dijkstra'),
+    ('src/algorithms/components/', 'components'),
+    ('src/graph/', 'graph'),
+]
 
 
-def search(prop, failed_ids, work):
+def _group_of(where):
+    for prefix, g in GROUPS:
+        if where and where.startswith(prefix):
+            return g
+    return None
+
+
+def _run_group(group, work):
+    """build the harness in a scratch copy of the repository under `work` and run one group; returns (witness dict | None, cmd)"""
+    src = os.path.join(work, 'search_repo')
+    if not os.path.isdir(src):
+        shutil.copytree(REPO, src, ignore=shutil.ignore_patterns('target', '.git'))
+        shutil.copy(os.path.join(ROOT, 'replays', 'search', 'verif_search.rs'), os.path.join(src, 'tests', 'verif_search.rs'))
+    env = dict(os.environ, CARGO_TARGET_DIR=os.path.join(work, 'search_target'), CARGO_NET_OFFLINE='true', VERIF_SEARCH_GROUP=group)
+    cmd = ['cargo', 'test', '--offline', '--test', 'verif_search', '--', '--nocapture']
+    try:
+        p = subprocess.run(cmd, cwd=src, env=env, stdout=subprocess.PIPE, stderr=subprocess.STDOUT, text=True,
+                           timeout=int(os.environ.get('VERIF_SEARCH_TIMEOUT', '900')))
+    except subprocess.TimeoutExpired:
+        return None, ' '.join(cmd)
+    m = re.search(r'^FOUND (\{.*\})\s*$', p.stdout, re.M)
+    if not m:
+        return None, ' '.join(cmd)
+    try:
+        return json.loads(m.group(1)), ' '.join(cmd)
+    except Exception:
+        return {'raw': m.group(1)}, ' '.join(cmd)
+
+
+def search(prop, failed, work):
+    """failed: the failed obligation objects (id, fn, where). Returns a failing-input record or None."""
+    if prop != 'C20' or os.environ.get('VERIF_SEARCH', '1') == '0':
+        return None
+    groups = []
+    for o in failed:
+        g = _group_of(getattr(o, 'where', '') or '')
+        if g and g not in groups:
+            groups.append(g)
+    for g in groups[:3]:
+        w, cmd = _run_group(g, work)
+        if w:
+            return {'source': 'small-scope witness search against the public API of the real code (Verus gives no counterexample); '
+                              'graphs with at most 4 nodes, all 8 kinds, unweighted and weights from {1.0, 0.0, 2.5, f64::MAX}',
+                    'group': g, 'witness': w, 'replayed_against_real_code': True,
+                    'cmd': 'VERIF_SEARCH_GROUP=%s %s   (in a scratch copy of /repo with replays/search/verif_search.rs under tests/)' % (g, cmd)}
     return None
 
 
@@ -29,9 +92,24 @@ def rerun(prop, path):
             rc = 1
         else:
             print('REPLAY: obligation %s is discharged on the current tree' % oid)
-    if doc.get('failing_input'):
+    fi = doc.get('failing_input') or {}
+    if fi.get('playback_test'):
         print('REPLAY: recorded counterexample (Kani concrete playback):')
-        print(doc['failing_input'].get('playback_test', ''))
+        print(fi.get('playback_test', ''))
+    if fi.get('group'):
+        import tempfile
+        work = tempfile.mkdtemp(prefix='verif_replay_')
+        try:
+            w, _ = _run_group(fi['group'], work)
+        finally:
+            pass
+        print('REPLAY: recorded witness: %s' % json.dumps(fi.get('witness')))
+        if w:
+            print('REPLAY: the witness search still finds a failing input on the current tree: %s' % json.dumps(w))
+            rc = 1
+        else:
+            print('REPLAY: the witness search finds no failing input on the current tree')
+        shutil.rmtree(work, ignore_errors=True)
     if rc:
         print('VIOLATION property=%s replay=%s%s' % (prop, path, '' if doc.get('failing_input') else ' no-failing-input-found'))
     return rc
